@@ -383,4 +383,71 @@ example : (step (.dynByTime 101 1) exampleSt).2 = .ok (.ids [7]) := by decide
 /-- drawing with occupancies from t = 0 to 3 fills the occupancy cache of obstacle 2 and the cache of the light -/
 example : (step (.draw exampleDraw) exampleSt).1 ≠ exampleSt ∧ (step (.draw exampleDraw) exampleSt).2 = .ok .unit := by decide
 
+/-! ### Footprint: WHICH hidden slot an operation kind can fill (the model side of the translator tie CRProps/T18.lean, which extracts
+    from the current source which cache attributes the corresponding Python functions can bind) -/
+
+/-- the operation kinds that can fill an occupancy cache (they evaluate `prediction.occupancy_set`) -/
+def Op.fillsOccCache : Op → Bool
+  | .occ .. | .occs .. | .occSet .. | .reads .. | .byIntervals .. | .mapObstacles .. | .getObstacles .. | .draw .. => true
+  | _ => false
+
+/-- … the lanelet index (`__deepcopy__` drops and rebuilds it) -/
+def Op.rebuildsIndex : Op → Bool
+  | .deepcopy => true
+  | _ => false
+
+/-- … a `_cycle_init_timesteps` table -/
+def Op.fillsLightCache : Op → Bool
+  | .light .. | .reads .. | .draw .. => true
+  | _ => false
+
+theorem footprint_of_eq (op : Op) (s : St) (h : (step op s).1 = s) :
+    (op.fillsOccCache = false → (step op s).1.obstacles = s.obstacles) ∧
+    (op.rebuildsIndex = false → (step op s).1.net = s.net) ∧
+    (op.fillsLightCache = false → (step op s).1.lights = s.lights) ∧
+    (step op s).1.problems = s.problems ∧ (step op s).1.extra = s.extra := by
+  rw [h]; exact ⟨fun _ => rfl, fun _ => rfl, fun _ => rfl, rfl, rfl⟩
+
+/-- C18 (f) **footprint**: an operation kind that is not listed as filling a hidden slot hands that component of the state back
+    identical (not only up to `obs`), and no operation kind touches the planning problems or `Extra` at all. -/
+theorem C18_footprint (op : Op) (s : St) :
+    (op.fillsOccCache = false → (step op s).1.obstacles = s.obstacles) ∧
+    (op.rebuildsIndex = false → (step op s).1.net = s.net) ∧
+    (op.fillsLightCache = false → (step op s).1.lights = s.lights) ∧
+    (step op s).1.problems = s.problems ∧ (step op s).1.extra = s.extra := by
+  cases op with
+  | occ oid t => simp [step, Op.fillsOccCache, Op.rebuildsIndex, Op.fillsLightCache]
+  | state oid t =>
+    refine footprint_of_eq _ s ?_
+    simp only [step]
+    rw [withObstacle_fst _ (fun o => rfl)]
+  | occs t role =>
+    simp only [step]; split <;> simp [Op.fillsOccCache, Op.rebuildsIndex, Op.fillsLightCache]
+  | statesAt t => simp only [step]; split <;> simp
+  | occSet oid => simp [step, Op.fillsOccCache, Op.rebuildsIndex, Op.fillsLightCache]
+  | findPos pts => simp [step]
+  | light lid t => simp [step, Op.fillsOccCache, Op.rebuildsIndex, Op.fillsLightCache]
+  | reads oq lq => simp [step, Op.fillsOccCache, Op.rebuildsIndex, Op.fillsLightCache]
+  | reached pid loc dec => exact footprint_of_eq _ s (step_fst_eq _ s (Or.inl ⟨_, _, _, rfl⟩))
+  | goalReached pid src decs => exact footprint_of_eq _ s (step_fst_eq _ s (Or.inr (Or.inl ⟨_, _, _, rfl⟩)))
+  | eq t => exact footprint_of_eq _ s rfl
+  | hash t => exact footprint_of_eq _ s rfl
+  | shallowCopy t => exact footprint_of_eq _ s rfl
+  | byIntervals t inside => simp [step, Op.fillsOccCache, Op.rebuildsIndex, Op.fillsLightCache]
+  | findShape sh => exact footprint_of_eq _ s rfl
+  | mapObstacles oids rel => simp [step, Op.fillsOccCache, Op.rebuildsIndex, Op.fillsLightCache]
+  | getObstacles lid oids t rel => simp [step, Op.fillsOccCache, Op.rebuildsIndex, Op.fillsLightCache]
+  | dynByTime lid t => exact footprint_of_eq _ s (step_fst_eq _ s (Or.inr (Or.inr (Or.inr (Or.inr (Or.inr (Or.inr (Or.inl ⟨_, _, rfl⟩))))))))
+  | mergeFrom lid paths => exact footprint_of_eq _ s (step_fst_eq _ s (Or.inr (Or.inr (Or.inr (Or.inr (Or.inr (Or.inr (Or.inr ⟨_, _, rfl⟩))))))))
+  | draw p =>
+    simp only [step]
+    split
+    · simp [Op.fillsOccCache, Op.rebuildsIndex, Op.fillsLightCache]
+    · split <;> simp [Op.fillsOccCache, Op.rebuildsIndex, Op.fillsLightCache]
+  | deepcopy => simp [step, Op.fillsOccCache, Op.rebuildsIndex, Op.fillsLightCache]
+  | pickle => simp [step, Op.fillsOccCache, Op.rebuildsIndex, Op.fillsLightCache, Net.pickle]
+  | writeXml wp => exact footprint_of_eq _ s (by simp only [step]; exact St.write_fst _ _ _)
+  | writePb wp => exact footprint_of_eq _ s (by simp only [step, pbLook_eq]; exact St.write_fst _ _ _)
+
+
 end CR.Frame
